@@ -11,7 +11,7 @@ PROPS["C01"] = {
     "level_note": "Trusted: my transcription of the ABNF (self-tested on RFC examples and against inet_pton for IPv6); ASan/UBSan; no claim for texts that were not generated.",
     "enumerate": {"strings": "all strings of length <= 4 (quick) / <= 5 (thorough) over 23 class representatives",
                   "literal_bodies": "'//[' + every body of length <= 6 (quick) / <= 8 (thorough) over {1 f 0 : . ] g}"},
-    "quick": {"cases": 60000},
+    "quick": {"cases": 100000},
     "thorough": {"cases": 1500000, "ceiling_s": 3000},
     "rule": ("texts from G_noise (40% grammar-built URI references, 35% of those with 1-3 edits or a suspicious bracketed literal, "
              "15% token soup, 10% random code points; wide runs add out-of-range code points) plus the exhaustive enumerations; "
@@ -47,7 +47,7 @@ PROPS["C03"] = {
                    "tails, (d) flush against PROT_NONE pages on either side with the input mapped read-only; outcomes (code, error offset, all components with offsets) must coincide. "
                    "Failures (syntax, and allocation failure at every request position, fail-once and fail-from) must leave zero blocks and tolerate repeated free calls."),
     "level_note": "Trusted: ASan red zones, the MMU, my recording memory manager. Reads inside a mapped page but outside the range are visible at one-character granularity only in the flush placements and heap copies.",
-    "quick": {"cases": 20000},
+    "quick": {"cases": 30000},
     "thorough": {"cases": 400000, "ceiling_s": 3000},
     "rule": ("G_noise texts over 0..255 (NUL included: explicit-range entry point); every prefix is a sub-case. Non-trivial = the text is rejected after its first character, "
              "or a split point falls inside a multi-character token (pct triplet, IP literal, after ':' or '.'), or an allocation failure hit at k >= 2; distinct by text"
@@ -78,7 +78,7 @@ PROPS["C05"] = {
                    "capacity from -2 to N+3 into a buffer of exactly that many characters placed flush against a PROT_NONE page: success/failure code, charsWritten, termination, "
                    "empty-string-on-failure and absence of any write beyond the capacity are checked. The capacity dimension is exhaustive per URI; URIs are explored."),
     "level_note": "Trusted: the MMU (guard page) and ASan. URIs whose text exceeds 256 characters get boundary capacities plus a stride instead of all capacities.",
-    "quick": {"cases": 60000},
+    "quick": {"cases": 90000},
     "thorough": {"cases": 1200000, "ceiling_s": 3000},
     "rule": ("URIs: 36% parsed G_uri, 36% results of uriAddBaseUriEx on correlated pairs, 28% normalised with a random or full mask; each with all capacities -2..N+3 and charsWritten "
              "NULL in 1/3 of cases. Non-trivial = URI with >= 3 emitted pieces and at least one capacity strictly inside the text (0 < c <= N); distinct by case (each covers all its capacities)"),
@@ -110,7 +110,7 @@ PROPS["C07"] = {
                    "after every producing step the produced object must be structurally well formed, recompose to text the grammar automaton accepts, and that text must parse back to the "
                    "same scheme, authority presence and parts, path text, query and fragment. Exploration over histories is the level the quantifier (all finite sequences) allows."),
     "level_note": "Trusted: grammar automaton, snapshot/read-back comparison. Histories are kept legal for a borrowed-memory API (no in-place change of an object others borrow from). Histories longer than 10 steps are not generated.",
-    "quick": {"cases": 40000},
+    "quick": {"cases": 60000},
     "thorough": {"cases": 1000000, "ceiling_s": 3000},
     "rule": ("history = 2 correlated parses + 1..8 steps (normalise 31%, resolve 23%, create reference 23%, make owner 15%, parse 8%), ambiguity-prone segment vocabulary ('', '.', '..', 'a:b', "
              "'%2e'), all masks, both options/modes, both character types. Non-trivial = >= 2 non-parse steps of which at least one changed a path; distinct by history"
@@ -125,7 +125,7 @@ PROPS["C08"] = {
                    "(scheme/host case, triplet repair and decoding of unreserved characters per component, dot-segment removal with the leading '..' rule, untouched components unchanged), "
                    "a second application must change nothing, the mask reported by both mask queries must reproduce full normalisation, and mask 0 must mean 'already normal'."),
     "level_note": "Trusted: M_split/M_norm (self-tested on the RFC 6.2.2 example and the repository's documented examples). In the four path corner shapes (path vanishes / empty or ':' first segment / host-less '//') alternative guard spellings are accepted and counted. Over-reporting by the mask query is allowed.",
-    "quick": {"cases": 4000},
+    "quick": {"cases": 6000},
     "thorough": {"cases": 100000, "ceiling_s": 3000},
     "rule": ("G_uri texts with case/percent-rich additions (upper-case schemes and hosts, %41 %7e %2F %c3%A4, IP-literal hosts in upper case) x 64 masks x {borrowed, owned} x {default, recording manager}; "
              "non-trivial = at least two components change under the full mask or the path loses a dot segment; distinct by text (each covers its 128 (mask, ownership) sub-cases)"
@@ -142,7 +142,7 @@ PROPS["C10"] = {
                    "(scheme omitted / authority omitted / absolute path in domain-root mode / S unchanged for differing schemes) are demanded exactly where a reference of that shape "
                    "provably exists; the two error codes are checked for non-absolute inputs."),
     "level_note": "Trusted: uriAddBaseUri for the way back (itself checked by C06 against the model), snapshots. One open known finding (F-S5: base path with dot segments) is excluded by class predicate and counted.",
-    "quick": {"cases": 60000},
+    "quick": {"cases": 80000},
     "thorough": {"cases": 1500000, "ceiling_s": 3000},
     "rule": ("(S, B) from one pool with forced overlap classes: identical 8%, S prefix of B 12%, B prefix of S 14%, differ in last segment 16%, other port/userinfo/authority 10%, query on one side 8%, "
              "rooted vs rootless 6%, other scheme 8%, unrelated path 12%, non-absolute 6%; '.'/'..' segments in 15%; both modes; both managers; both character types. "
@@ -161,7 +161,7 @@ PROPS["C09"] = {
                    "scheme-less, authority-less path between empty / relative / absolute (judged on the recomposed text). A metamorphic relation needs no normal-form model, so it also "
                    "guards the model-based C08 check from shared mistakes."),
     "level_note": "Trusted: uriAddBaseUri (checked by C06). A defect that shifts both sides equally is invisible here. One open known finding (F-N1: relative path cancels to nothing; pinned by the repository's tests) is excluded by class and counted.",
-    "quick": {"cases": 50000},
+    "quick": {"cases": 70000},
     "thorough": {"cases": 1200000, "ceiling_s": 3000},
     "rule": ("(B, R) from one pool: R relative-path 35%, absolute-path 20%, same-scheme absolute 15%, other scheme 10%, network-path 10%, empty path 10%; B absolute with authority / rooted / "
              "rootless / empty path; segment vocabulary without %2e. Non-trivial = R is a relative-path or absolute-path reference whose path changes under normalisation; distinct by (B, R)"
@@ -177,7 +177,7 @@ PROPS["C11"] = {
                    "single-component mutations (14 kinds), equal-by-construction copies and objects produced by generated histories; reflexivity, symmetry, transitivity over triples, NULL "
                    "handling and bit-for-bit immutability of both arguments are checked, and for library-produced objects equality must coincide with identity of the recomposed texts."),
     "level_note": "Trusted: snapshot() (reads the public struct fields), uriToString for the text clause (C04/C05).",
-    "quick": {"cases": 40000},
+    "quick": {"cases": 70000},
     "thorough": {"cases": 1500000, "ceiling_s": 3000},
     "rule": ("arms: 17% three independent G_uri texts, 42% text + single-component mutation (+ second mutation or copy), 17% equal by construction (re-parse / make-owner copy / resolve empty reference), "
              "25% three objects out of a generated history. Non-trivial = the pair differs in exactly one component, or is equal without being the independent arm; distinct by case"
@@ -195,7 +195,7 @@ PROPS["C16"] = {
                    "for all 2x4 option combinations; both character types; all strings up to length 5/6 over 13 critical characters are enumerated."),
     "level_note": "Trusted: the models, the MMU. With unencoded CR/LF in the input and a converting break mode only safety, length and the non-break characters are judged (the statement is silent there); counted as relaxed.",
     "enumerate": {"strings": "all strings of length <= 5 (quick) / <= 6 (thorough) over {% 4 1 a A g + space CR LF 0xff D 0} x all 2x2 escape and 2x4 unescape options"},
-    "quick": {"cases": 60000},
+    "quick": {"cases": 90000},
     "thorough": {"cases": 1500000, "ceiling_s": 3000},
     "rule": ("G_text over 1..255 built from chunks (%, %4, %41, %4G, %%41, %0D%0A, +, space, CR, LF, CRLF, 0x7f, 0x80, 0xff ...) with truncated triplets over-weighted at the very end; "
              "both entry points of each function; non-trivial = contains a character that must be escaped, a well-formed triplet or a malformed '%' and has length >= 2; distinct by text"),
@@ -228,7 +228,7 @@ PROPS["C18"] = {
                    "All names up to length 6/7 over {a C : \\\\ / space % .} are enumerated in every class they belong to."),
     "level_note": "Trusted: the grammar automaton, the MMU. Names outside the statement's classes (drive-relative 'X:rest', non-letter drives, Windows names containing '/') are not generated.",
     "enumerate": {"names": "all names of length <= 6 (quick) / <= 7 (thorough) over {a C : \\ / space % .}, each in every class whose definition it meets"},
-    "quick": {"cases": 60000},
+    "quick": {"cases": 120000},
     "thorough": {"cases": 1500000, "ceiling_s": 3000},
     "rule": ("classes: unix absolute 25%, unix relative 17%, windows drive 25%, windows UNC 17%, windows relative 17%; segments from chunks incl. space % : # ? 0x7f 0x80 0xff; "
              "non-trivial = the name contains a character that needs escaping or >= 2 separators; distinct by (class, name)"),
@@ -243,7 +243,7 @@ PROPS["C14"] = {
                    "return the out-of-memory code, the caller's ordinary cleanup must bring the recording manager to zero outstanding blocks with no double/foreign free, read-only operands must be "
                    "bit-for-bit unchanged, ASan sees any touch of released memory; plans that do not bite must reproduce the fault-free result. The position dimension is exhaustive per call."),
     "level_note": "Trusted: the recording manager, ASan. Only failure patterns are injected, not an allocator returning garbage. For n > 64 the first 32 positions plus 32 spread positions are used.",
-    "quick": {"cases": 6000},
+    "quick": {"cases": 40000},
     "thorough": {"cases": 150000, "ceiling_s": 3000},
     "rule": ("operations weighted normalise 21%, resolve 16%, create reference 16%, parse 11%, make owner 11%, dissect 11%, normalise-resolved 11%, compose 5%; inputs from G_uri / correlated pairs; "
              "for each: all k in 1..n x {fail-once, fail-from} + one non-biting plan + up to 8 random masks, both character types. Non-trivial = the call makes >= 2 requests (so some k >= 2 hits after "
@@ -260,7 +260,7 @@ PROPS["C15"] = {
                    "size (ASan bounds the backend block), blocks are disjoint, calloc memory is zero, realloc keeps the common prefix, overflow gives NULL+ENOMEM with the old block intact, realloc(p,0) "
                    "frees, realloc(NULL,s) allocates, backend refusal surfaces as NULL with the old block intact, backend live set == caller live set, each backend block released once with its own pointer."),
     "level_note": "Trusted: the model, ASan, my recording backend. Alignment is not asserted (not claimed by the statement).",
-    "quick": {"cases": 40000},
+    "quick": {"cases": 90000},
     "thorough": {"cases": 1000000, "ceiling_s": 3000},
     "rule": ("sequences of 1-40 ops: realloc 29%, malloc 24%, free 19%, calloc 14%, reallocarray 14%; pointer argument NULL in 1/8; fault mask on the first 40 backend requests in half of the sequences. "
              "Non-trivial = >= 3 live blocks at some point and a grow after a shrink or a backend failure during growth; distinct by sequence"),
@@ -276,7 +276,7 @@ PROPS["C12"] = {
                    "Every call in the history is bracketed: const URI arguments (operands of resolve, create-reference, equals, toString, charsRequired, both mask queries) must be bit-for-bit "
                    "unchanged and every caller-supplied text byte-for-byte unchanged."),
     "level_note": "Trusted: ASan (use-after-free detection), freeze() (struct bytes, path nodes, IP data and referenced text). Read-only page protection of inputs is exercised in C03/C16, here byte comparison is used.",
-    "quick": {"cases": 25000},
+    "quick": {"cases": 70000},
     "thorough": {"cases": 600000, "ceiling_s": 3000},
     "rule": ("histories of 2 correlated parses + 1..7 steps incl. observers, then a final make-owner (50%) or normalise with mask 1..63 on an object nobody else borrows from; all host kinds; both "
              "character types. Non-trivial = the final object was not yet owner and has >= 3 non-empty components including a host, or borrows from >= 2 source texts; distinct by history"
@@ -294,7 +294,7 @@ PROPS["C13"] = {
                    "before any request reaches them and without touching the URI."),
     "level_note": "Trusted: the recording managers, the symbol redirection (verified by the NULL-manager ledger moving), ASan/LSan.",
     "enumerate": {"incomplete_managers": "all 31 proper subsets of {malloc, calloc, realloc, reallocarray, free} x 9 ...Mm entry points x 2 character types, plus uriCompleteMemoryManager on each"},
-    "quick": {"cases": 25000},
+    "quick": {"cases": 75000},
     "thorough": {"cases": 600000, "ceiling_s": 3000},
     "rule": ("histories of 2 parses + 1..8 steps + 0..2 dissect/compose/free-list steps, manager chosen per step among {NULL, A, B, completed}; both character types. Non-trivial = >= 3 manager-taking "
              "calls on >= 2 objects; distinct by history (incomplete-manager combinations counted separately)"
@@ -310,7 +310,7 @@ PROPS["C19"] = {
                    "character types; the two transcripts (codes, narrowed texts, component snapshots, error offsets, counts, required sizes, chars written) must be identical. Every wide buffer is an "
                    "exact-size heap block counted in characters, so bytes-vs-characters mistakes surface as ASan reports or as truncated/garbled wide results."),
     "level_note": "Trusted: the narrow API as reference (its own semantics are checked by C01-C18), ASan.",
-    "quick": {"cases": 25000},
+    "quick": {"cases": 60000},
     "thorough": {"cases": 600000, "ceiling_s": 3000},
     "rule": ("history of 2 correlated parses + 1..6 URI steps with observers + 1..5 extra steps (escape, unescape, query, filename, toString-with-capacity, possibly invalid parse) over code points 1..255; "
              "non-trivial = >= 3 ops and at least one produced text of length >= 8; each of the ten function groups is exercised in > 15% of transcripts (histogram); distinct by transcript"
